@@ -398,7 +398,16 @@ fn source_case(slot: &mut usize, fmt: &str, name: &str, data: &[u8], out: &mut S
         _ => parse_tokenizers(data),
     };
     match src {
-        Some(src) => {
+        Some(mut src) => {
+            // a source that lists the same token twice has no well-defined merge priority per entry: no order claim
+            {
+                let mut seen = std::collections::HashSet::new();
+                if src.iter().any(|s| !seen.insert((s.id, s.bytes.clone()))) {
+                    for s in src.iter_mut() {
+                        s.prio = None;
+                    }
+                }
+            }
             src_lines(this, &src, &mut lines);
             // "yields a definition that initializes" is claimed for well-formed sources: no empty token and
             // no two ordinary tokens with the same bytes or the same id (Tiktoken / Tekken sources are not
@@ -554,7 +563,7 @@ pub fn gen(rng: &mut Rng, thorough: bool, out: &mut Sink) {
         }
     }
     // ---- generated sources of each format (mostly valid, with boundary values)
-    let n = if thorough { 4000 } else { 400 };
+    let n = if thorough { 24000 } else { 400 };
     for v in 0..n {
         let (fmt, data) = match v % 4 {
             0 => ("tokenizers", crate::c17::hf_json(rng, v / 4)),
